@@ -949,7 +949,20 @@ class FnAnalysis:
                     changed = True
                 out[k] = j
             else:
-                # defined on one path only: unknown
+                # defined on one path only: unknown - except a predicate whose local is a boolean constant on the other
+                # path (the join of `a && b` / `a || b` compiled to branches): kept as a guarded predicate
+                if isinstance(k, tuple) and k[0] == "p" and isinstance(k[1], int):
+                    have, other = (old, new) if k in old else (new, old)
+                    cv = other.get(k[1])
+                    pr = have[k]
+                    if isinstance(cv, AV) and cv.lo == cv.hi and cv.lo in (0, 1) and pr[0] in ("cmp", "contains", "fcontains", "not"):
+                        # everything known on that path holds when the outcome shows the path was taken
+                        snap = {l: v for l, v in have.items() if isinstance(l, int) or (isinstance(l, tuple) and l[0] in ("alias", "abs"))}
+                        g = ("guard", pr, snap, cv.lo)
+                        out[k] = g
+                        if k not in old:
+                            changed = True
+                        continue
                 if k in old:
                     changed = True
         return out, changed
@@ -998,7 +1011,7 @@ class FnAnalysis:
             if p is not None and not M.place_proj(place):
                 rp = self.resolve_place(env, p)
                 # a compiler temporary holding a copy of a scalar / a moved reference stands for the place it was read from
-                if rp is not None and self.b.locals[l][1] is None and (isinstance(val, AV) or self.lty(l).startswith("&")):
+                if rp is not None and self.b.locals[l][1] is None and (isinstance(val, (AV, Fl)) or self.lty(l).startswith("&")):
                     self._pending_alias = rp
                 if not M.place_proj(p) and ("p", p) in env:
                     self._pending_pred = env[("p", p)]
@@ -1405,7 +1418,44 @@ class FnAnalysis:
                     nb.x = None
                 self.apply_refinement(env, lo_, na)
                 self.apply_refinement(env, ro_, nb)
+            elif isinstance(a, Fl) or isinstance(b, Fl):
+                # float comparison against a constant bound: `x <= C`, `C <= x` (bounds kept inclusive: an over-approximation)
+                def const(v):
+                    if isinstance(v, AV) and v.lo == v.hi:
+                        return float(v.lo)
+                    if isinstance(v, Fl) and v.lo is not None and v.lo == v.hi:
+                        return float(v.lo)
+                    return None
+                for x, xo, c, flip in ((a, lo_, const(b), False), (b, ro_, const(a), True)):
+                    if not isinstance(x, Fl) or c is None or (x.lo is not None and x.lo == x.hi):
+                        continue
+                    o = op if not flip else {"Lt": "Gt", "Le": "Ge", "Gt": "Lt", "Ge": "Le"}.get(op, op)
+                    nlo, nhi = x.lo, x.hi
+                    if o in ("Lt", "Le"):
+                        nhi = c if nhi is None else min(nhi, c)
+                    elif o in ("Gt", "Ge"):
+                        nlo = c if nlo is None else max(nlo, c)
+                    elif o == "Eq":
+                        nlo = c if nlo is None else max(nlo, c)
+                        nhi = c if nhi is None else min(nhi, c)
+                    else:
+                        continue
+                    if nlo is not None and nhi is not None and nlo > nhi:
+                        return None
+                    nv = Fl(x.t, x.why, None, x.w, x.x, lo=nlo, hi=nhi)
+                    self.apply_refinement(env, xo, nv)
             return env
+        if kind == "guard":
+            # `let ok = a && b` compiled to branches: `ok` is a comparison on one path and a constant on the other. When the
+            # branch outcome differs from the constant, the comparison's path was taken: its operands had the values
+            # recorded there (they carry the refinements of the earlier conjuncts), and the comparison has that outcome.
+            inner, snap, cst = pred[1], pred[2], pred[3]
+            if bool(truth) == bool(cst):
+                return env
+            for l, v in snap.items():
+                if v is not None:
+                    env[l] = v
+            return self.refine(env, inner, truth)
         if kind == "fcontains":
             lo, hi, xop = pred[1], pred[2], pred[3]
             x = self.operand(env, xop)
@@ -2050,6 +2100,28 @@ def _why(*vs):
         elif getattr(v, "t", False):
             return v.why
     return ""
+
+
+def _pred_locals(pr):
+    """root locals of the places a predicate reads"""
+    out = set()
+
+    def op_root(o):
+        if isinstance(o, dict) and "rp" in o and o["rp"]:
+            out.add(o["rp"][0])
+        elif isinstance(o, dict):
+            p = M.op_place(o)
+            if p is not None:
+                out.add(M.place_local(p))
+    if pr[0] == "not":
+        return _pred_locals(pr[1])
+    if pr[0] == "cmp":
+        op_root(pr[2]); op_root(pr[3])
+    elif pr[0] == "contains":
+        op_root(pr[4])
+    elif pr[0] == "fcontains":
+        op_root(pr[3])
+    return out
 
 
 def _points(v):
